@@ -20,6 +20,12 @@
  *                                SUFFIX fails (fstat of an open descriptor does not):
  *                                the file vanished or its directory lost search
  *                                permission between listing and stat
+ *       fstat_err=SUFFIX:ERRNO   fstat()/statx(fd, "") of an OPEN file whose path ends in
+ *                                SUFFIX fails (the open and the reads work)
+ *       pipe_eintr=J             on every pipe (a child's stdout/stderr, stdin when it is
+ *                                a pipe) the J-th read() is answered EINTR once; several
+ *                                directives give several indices
+ *       pipe_frag=SEED           reads on pipes return between 1 and 97 bytes
  *       read_frag=SEED           every read() on files beneath ROOT returns
  *                                between 1 and 97 bytes (seeded per fd)
  *   FAULTSHIM_OUT    file that receives the "what actually fired" counters
@@ -52,8 +58,15 @@ static char cwd[1024];
 static long stdout_budget = -1;      /* -1: unlimited */
 static long stdout_written;
 static int epipe_seen;
-static struct rule open_rules[MAXRULES], opendir_rules[MAXRULES], read_rules[MAXRULES], eof_rules[MAXRULES], stat_rules[MAXRULES];
-static int n_open, n_opendir, n_read, n_eof, n_stat;
+static struct rule open_rules[MAXRULES], opendir_rules[MAXRULES], read_rules[MAXRULES], eof_rules[MAXRULES], stat_rules[MAXRULES], fstat_rules[MAXRULES];
+static int n_open, n_opendir, n_read, n_eof, n_stat, n_fstat;
+static long pipe_eintr_at[MAXRULES];
+static int n_pipe_eintr;
+static int pipe_frag_on;
+static uint64_t pipe_frag_seed;
+static signed char fdfifo[MAXFD];   /* 0 unknown, 1 pipe, -1 not a pipe */
+static long fifo_reads[MAXFD];
+static uint64_t fifo_rng[MAXFD];
 static uint64_t frag_seed;
 static int frag_on;
 static char *fdpath[MAXFD];
@@ -61,7 +74,7 @@ static long fdreads[MAXFD];
 static uint64_t fdrng[MAXFD];
 
 /* counters of what fired */
-static long c_epipe, c_short_write, c_open_err, c_opendir_err, c_read_err, c_read_eintr, c_read_frag, c_opens_after_epipe, c_opens, c_read_eof, c_stat_err;
+static long c_epipe, c_short_write, c_open_err, c_opendir_err, c_read_err, c_read_eintr, c_read_frag, c_opens_after_epipe, c_opens, c_read_eof, c_stat_err, c_fstat_err, c_pipe_eintr, c_pipe_frag;
 
 static ssize_t (*real_write)(int, const void *, size_t);
 static ssize_t (*real_read)(int, void *, size_t);
@@ -99,10 +112,31 @@ static void dump(void) {
     if (!out || !real_open || strcmp(program_invocation_short_name, "rg") != 0) return;
     char buf[1024];
     int n = snprintf(buf, sizeof buf,
-        "epipe=%ld\nshort_write=%ld\nopen_err=%ld\nopendir_err=%ld\nread_err=%ld\nread_eintr=%ld\nread_frag=%ld\nopens=%ld\nopens_after_epipe=%ld\nstdout_written=%ld\nread_eof=%ld\nstat_err=%ld\n",
-        c_epipe, c_short_write, c_open_err, c_opendir_err, c_read_err, c_read_eintr, c_read_frag, c_opens, c_opens_after_epipe, stdout_written, c_read_eof, c_stat_err);
+        "epipe=%ld\nshort_write=%ld\nopen_err=%ld\nopendir_err=%ld\nread_err=%ld\nread_eintr=%ld\nread_frag=%ld\nopens=%ld\nopens_after_epipe=%ld\nstdout_written=%ld\nread_eof=%ld\nstat_err=%ld\nfstat_err=%ld\npipe_eintr=%ld\npipe_frag=%ld\n",
+        c_epipe, c_short_write, c_open_err, c_opendir_err, c_read_err, c_read_eintr, c_read_frag, c_opens, c_opens_after_epipe, stdout_written, c_read_eof, c_stat_err, c_fstat_err, c_pipe_eintr, c_pipe_frag);
     int fd = real_open(out, O_WRONLY | O_CREAT | O_TRUNC, 0644);
     if (fd >= 0) { real_write(fd, buf, n); real_close(fd); }
+}
+
+static void parse_plan(const char *plan) {
+    char *copy = strdup(plan), *save = NULL;
+    for (char *tok = strtok_r(copy, ";", &save); tok; tok = strtok_r(NULL, ";", &save)) {
+        char *eq = strchr(tok, '=');
+        if (!eq) continue;
+        *eq = 0;
+        const char *k = tok, *v = eq + 1;
+        if (!strcmp(k, "stdout_budget")) stdout_budget = atol(v);
+        else if (!strcmp(k, "open_err") && n_open < MAXRULES) parse_rule(&open_rules[n_open++], v, 0);
+        else if (!strcmp(k, "fstat_err") && n_fstat < MAXRULES) parse_rule(&fstat_rules[n_fstat++], v, 0);
+        else if (!strcmp(k, "pipe_eintr") && n_pipe_eintr < MAXRULES) pipe_eintr_at[n_pipe_eintr++] = atol(v);
+        else if (!strcmp(k, "pipe_frag")) { pipe_frag_on = 1; pipe_frag_seed = strtoull(v, NULL, 10); }
+        else if (!strcmp(k, "stat_err") && n_stat < MAXRULES) parse_rule(&stat_rules[n_stat++], v, 0);
+        else if (!strcmp(k, "opendir_err") && n_opendir < MAXRULES) parse_rule(&opendir_rules[n_opendir++], v, 0);
+        else if (!strcmp(k, "read_err") && n_read < MAXRULES) parse_rule(&read_rules[n_read++], v, 1);
+        else if (!strcmp(k, "read_eof") && n_eof < MAXRULES) { char tmp[600]; snprintf(tmp, sizeof tmp, "%s:0", v); parse_rule(&eof_rules[n_eof++], tmp, 1); }
+        else if (!strcmp(k, "read_frag")) { frag_on = 1; frag_seed = strtoull(v, NULL, 10); }
+    }
+    free(copy);
 }
 
 static void init(void) {
@@ -125,23 +159,7 @@ static void init(void) {
      * plan is meant for rg itself only. */
     extern char *program_invocation_short_name;
     if (plan && strcmp(program_invocation_short_name, "rg") != 0) plan = NULL;
-    if (plan) {
-        char *copy = strdup(plan), *save = NULL;
-        for (char *tok = strtok_r(copy, ";", &save); tok; tok = strtok_r(NULL, ";", &save)) {
-            char *eq = strchr(tok, '=');
-            if (!eq) continue;
-            *eq = 0;
-            const char *k = tok, *v = eq + 1;
-            if (!strcmp(k, "stdout_budget")) stdout_budget = atol(v);
-            else if (!strcmp(k, "open_err") && n_open < MAXRULES) parse_rule(&open_rules[n_open++], v, 0);
-            else if (!strcmp(k, "stat_err") && n_stat < MAXRULES) parse_rule(&stat_rules[n_stat++], v, 0);
-            else if (!strcmp(k, "opendir_err") && n_opendir < MAXRULES) parse_rule(&opendir_rules[n_opendir++], v, 0);
-            else if (!strcmp(k, "read_err") && n_read < MAXRULES) parse_rule(&read_rules[n_read++], v, 1);
-            else if (!strcmp(k, "read_eof") && n_eof < MAXRULES) { char tmp[600]; snprintf(tmp, sizeof tmp, "%s:0", v); parse_rule(&eof_rules[n_eof++], tmp, 1); }
-            else if (!strcmp(k, "read_frag")) { frag_on = 1; frag_seed = strtoull(v, NULL, 10); }
-        }
-        free(copy);
-    }
+    if (plan) parse_plan(plan);
     atexit(dump);
     inited = 1;
     pthread_mutex_unlock(&mu);
@@ -223,10 +241,39 @@ static int stat_fault(const char *path0) {
     return 1;
 }
 
+/* stat of an open descriptor */
+static int fstat_fault(int fd) {
+    init();
+    if (!n_fstat || fd < 0 || fd >= MAXFD) return 0;
+    pthread_mutex_lock(&mu);
+    const char *p = fdpath[fd];
+    int hit = -1;
+    if (p) for (int i = 0; i < n_fstat; i++) if (ends_with(p, fstat_rules[i].suffix)) hit = i;
+    if (hit >= 0) c_fstat_err++;
+    pthread_mutex_unlock(&mu);
+    if (hit < 0) return 0;
+    errno = fstat_rules[hit].err;
+    return 1;
+}
+
+int fstat(int fd, struct stat *buf) {
+    static int (*real)(int, struct stat *);
+    if (!real) real = dlsym(RTLD_NEXT, "fstat");
+    if (fstat_fault(fd)) return -1;
+    return real(fd, buf);
+}
+int fstat64(int fd, struct stat64 *buf) {
+    static int (*real)(int, struct stat64 *);
+    if (!real) real = dlsym(RTLD_NEXT, "fstat64");
+    if (fstat_fault(fd)) return -1;
+    return real(fd, buf);
+}
+
 struct statx;
 int statx(int dirfd, const char *path, int flags, unsigned int mask, struct statx *buf) {
     static int (*real)(int, const char *, int, unsigned int, struct statx *);
     if (!real) real = dlsym(RTLD_NEXT, "statx");
+    if (!path[0] && fstat_fault(dirfd)) return -1;
     if (stat_fault(path)) return -1;
     return real(dirfd, path, flags, mask, buf);
 }
@@ -285,6 +332,7 @@ int close(int fd) {
     if (fd >= 0 && fd < MAXFD) {
         pthread_mutex_lock(&mu);
         free(fdpath[fd]); fdpath[fd] = NULL;
+        fdfifo[fd] = 0; fifo_reads[fd] = 0;
         pthread_mutex_unlock(&mu);
     }
     return real_close(fd);
@@ -317,6 +365,36 @@ ssize_t read(int fd, void *buf, size_t n) {
         pthread_mutex_unlock(&mu);
         if (err) { errno = err; return -1; }
         return real_read(fd, buf, lim);
+    }
+    if ((n_pipe_eintr || pipe_frag_on) && fd >= 0 && fd < MAXFD) {
+        if (fdfifo[fd] == 0) {
+            struct stat st;
+            static int (*real_fstat)(int, struct stat *);
+            if (!real_fstat) real_fstat = dlsym(RTLD_NEXT, "fstat");
+            int fifo = real_fstat(fd, &st) == 0 && S_ISFIFO(st.st_mode);
+            pthread_mutex_lock(&mu);
+            fdfifo[fd] = fifo ? 1 : -1; fifo_reads[fd] = 0;
+            fifo_rng[fd] = (pipe_frag_seed ^ 0x9E3779B97F4A7C15ULL) * (uint64_t)(fd + 1) | 1;
+            pthread_mutex_unlock(&mu);
+        }
+        if (fdfifo[fd] == 1) {
+            pthread_mutex_lock(&mu);
+            long idx = fifo_reads[fd]++;
+            int hit = 0;
+            for (int i = 0; i < n_pipe_eintr; i++) if (pipe_eintr_at[i] == idx) hit = 1;
+            size_t lim = n;
+            if (hit) c_pipe_eintr++;
+            else if (pipe_frag_on && n > 1) {
+                uint64_t x = fifo_rng[fd];
+                x ^= x << 13; x ^= x >> 7; x ^= x << 17;
+                fifo_rng[fd] = x;
+                lim = 1 + (size_t)(x % 97);
+                if (lim > n) lim = n; else c_pipe_frag++;
+            }
+            pthread_mutex_unlock(&mu);
+            if (hit) { errno = EINTR; return -1; }
+            return real_read(fd, buf, lim);
+        }
     }
     return real_read(fd, buf, n);
 }
@@ -358,3 +436,22 @@ ssize_t writev(int fd, const struct iovec *iov, int cnt) {
     }
     return total;
 }
+
+/* In-process use (engine E2 `walksim` preloads the shim into its worker
+ * processes): replace the plan between two simulated runs, and read back how
+ * often stat-by-name faults fired since then. Not used inside rg. */
+void faultshim_set(const char *new_root, const char *plan) {
+    init();
+    pthread_mutex_lock(&mu);
+    n_open = n_opendir = n_read = n_eof = n_stat = n_fstat = n_pipe_eintr = 0;
+    frag_on = pipe_frag_on = 0;
+    stdout_budget = -1;
+    c_stat_err = c_open_err = c_opendir_err = 0;
+    root[0] = 0;
+    if (new_root) strncpy(root, new_root, sizeof root - 1);
+    if (!getcwd(cwd, sizeof cwd)) cwd[0] = 0;
+    if (plan && plan[0]) parse_plan(plan);
+    pthread_mutex_unlock(&mu);
+}
+
+long faultshim_stat_faults(void) { return c_stat_err; }
